@@ -10,6 +10,7 @@ CONSTANTS
   RenderFails = FALSE
   CacheMisses = FALSE
   VerBumps = FALSE
+  Forges = FALSE
   FailKinds = {}
 VIEW view
 ACTION_CONSTRAINT Emit
